@@ -34,6 +34,10 @@ K("awkward_ListArray_min_range",
   serves=["C09", "C12", "C13"])
 
 K("awkward_ListArray_rpad_and_clip_length_axis1",
+  # C09 (pad_none gives every list length max(len, target)): the padded content has the sum of those lengths
+  sums={"PL": ("q", "lenstarts", "max(target, fromstops[q] - fromstarts[q])", ["fromstarts", "fromstops", "target"])},
+  loops={"L0": ["0 <= i", "i <= lenstarts", "length == PL(fromstarts, fromstops, target, i)"]},
+  ensures_ok=["tomin[0] == PL(fromstarts, fromstops, target, lenstarts)"],
   per_spec={"U32": {"requires": [LE("fromstarts", "fromstops", "lenstarts")]}},
   serves=["C09", "C12", "C13"])
 
